@@ -133,6 +133,19 @@ def generate(ctx):
                     i1 = ctx.add('contains %s %s' % (gen.hexarg(gen.enc(a)), gen.hexarg(gen.enc(b)))).id
                     i2 = ctx.add('compare %s %s' % (gen.hexarg(gen.enc(a)), gen.hexarg(gen.enc(b)))).id
                     ctx.pairs.append((a, b, (i1, i2)))
+    # deterministic: numbers at the ends of the integer ranges against the floats just beyond them, in every position (scalar,
+    # array element, object member, bare scalar against a top-level array) -- containment must use the equality compare reports
+    # (a seeded `==` for numbers converted the float with a saturating cast: every float >= 2^64 "equals" u64::MAX)
+    F = lambda x: ('d', gen.float_to_bits(float(x)))
+    grid = [('u', 2 ** 64 - 1), F(2 ** 64), F(1e20), F(2 ** 64 - 2048), ('u', 2 ** 63), F(2 ** 63), ('i', 2 ** 63 - 1), F(1e19), ('i', -2 ** 63), F(-2 ** 63),
+            F(-1e19), F(-2 ** 63 - 2048), ('u', 2 ** 53), F(2 ** 53), ('u', 2 ** 53 + 1), ('i', -1), F(-1.0), ('u', 0), F(-0.0), F(1e300), F(-1e300)]
+    for x in grid:
+        for y in grid:
+            i1 = ctx.add('contains %s %s' % (gen.hexarg(gen.enc(x)), gen.hexarg(gen.enc(y)))).id
+            i2 = ctx.add('compare %s %s' % (gen.hexarg(gen.enc(x)), gen.hexarg(gen.enc(y)))).id
+            ctx.pairs.append((x, y, (i1, i2)))
+            for a, b in ((('a', [x]), ('a', [y])), (('o', [(b'k', x)]), ('o', [(b'k', y)])), (('a', [('s', b'p'), x]), y), (('a', [('a', [x])]), ('a', [('a', [y])]))):
+                ctx.pairs.append((a, b, ctx.add('contains %s %s' % (gen.hexarg(gen.enc(a)), gen.hexarg(gen.enc(b))), meta=('c', a, b)).id))
     malformed(ctx)
 
 
